@@ -68,6 +68,14 @@ pub trait Engine: Sync {
     fn blame(&self, _req: &str, _impl_r: &str, _model_r: &str) -> Vec<&'static str> {
         Vec::new()
     }
+    /// Run the implementation in child processes (a memory error aborts the process, a lost wake-up hangs it).
+    fn isolated(&self) -> bool {
+        false
+    }
+    /// Properties concretely violated when the implementation crashes (abort/segfault) or hangs on a case.
+    fn crash_blame(&self) -> Vec<&'static str> {
+        Vec::new()
+    }
     fn nontrivial_rule(&self) -> &'static str;
     fn default_cases(&self, tier: Tier) -> usize;
     /// Lines that must be kept by the minimiser (e.g. the `case` header).
@@ -170,7 +178,10 @@ fn minimise(e: &dyn Engine, driver: &str, lines: &[String], budget: usize) -> Ve
     let mut tries = 0usize;
     let mut chunk = (cur.len() / 2).max(1);
     let disagrees = |ls: &[String]| -> bool {
-        let imp = e.run_impl(ls);
+        let imp = exec_impl(e, ls);
+        if imp.hung {
+            return false;
+        }
         match run_driver(driver, e.name(), &model_lines(ls, &imp)) {
             Ok(m) => first_diff(e, ls, &imp.resp, &m).is_some(),
             Err(_) => false,
@@ -210,6 +221,252 @@ fn hash_case(lines: &[String], resp: &[String]) -> u64 {
     lines.hash(&mut h);
     resp.hash(&mut h);
     h.finish()
+}
+
+/// ---- child-process isolation -------------------------------------------------------------------
+
+fn esc(s: &str) -> String {
+    s.replace('\\', "\\\\").replace('\n', "\\n")
+}
+fn unesc(s: &str) -> String {
+    let mut out = String::new();
+    let mut it = s.chars();
+    while let Some(c) = it.next() {
+        if c == '\\' {
+            match it.next() {
+                Some('n') => out.push('\n'),
+                Some(c2) => out.push(c2),
+                None => {}
+            }
+        } else {
+            out.push(c);
+        }
+    }
+    out
+}
+
+/// Child side: run the cases of `cases_file` from index `from`, appending framed outcomes to `out_file`.
+pub fn child_main(e: &dyn Engine, cases_file: &str, from: usize, out_file: &str) {
+    let text = std::fs::read_to_string(cases_file).unwrap_or_default();
+    let cases: Vec<Vec<String>> = text
+        .split("\n%%\n")
+        .map(|b| b.lines().filter(|l| !l.is_empty()).map(|l| l.to_string()).collect())
+        .collect();
+    let mut f = std::fs::OpenOptions::new().create(true).append(true).open(out_file).expect("child out");
+    for (i, lines) in cases.iter().enumerate().skip(from) {
+        let _ = writeln!(f, "C {i}");
+        let _ = f.flush();
+        let out = e.run_impl(lines);
+        let mut buf = String::new();
+        for r in &out.resp {
+            buf.push_str(&format!("R {}\n", esc(r)));
+        }
+        for h in &out.hints {
+            buf.push_str(&format!("H {}\n", esc(h)));
+        }
+        for t in &out.tags {
+            buf.push_str(&format!("T {}\n", esc(t)));
+        }
+        for (p, w) in &out.monitor {
+            buf.push_str(&format!("M {}\t{}\n", p, esc(w)));
+        }
+        buf.push_str(&format!("N {}\nU {}\nE {i}\n", out.nontrivial as u8, out.hung as u8));
+        let _ = f.write_all(buf.as_bytes());
+        let _ = f.flush();
+    }
+}
+
+fn parse_child_out(text: &str, outcomes: &mut [Option<Outcome>]) -> Option<usize> {
+    // returns the index of a case that was started but not finished, if any
+    let mut cur: Option<(usize, Outcome)> = None;
+    for l in text.lines() {
+        let (k, v) = l.split_at(1.min(l.len()));
+        let v = v.strip_prefix(' ').unwrap_or(v);
+        match k {
+            "C" => cur = Some((v.parse().unwrap_or(0), Outcome::default())),
+            "R" => {
+                if let Some((_, o)) = &mut cur {
+                    o.resp.push(unesc(v));
+                }
+            }
+            "H" => {
+                if let Some((_, o)) = &mut cur {
+                    o.hints.push(unesc(v));
+                }
+            }
+            "T" => {
+                if let Some((_, o)) = &mut cur {
+                    o.tags.push(unesc(v));
+                }
+            }
+            "M" => {
+                if let Some((_, o)) = &mut cur {
+                    if let Some((p, w)) = v.split_once('\t') {
+                        o.monitor.push((p.to_string(), unesc(w)));
+                    }
+                }
+            }
+            "N" => {
+                if let Some((_, o)) = &mut cur {
+                    o.nontrivial = v == "1";
+                }
+            }
+            "U" => {
+                if let Some((_, o)) = &mut cur {
+                    o.hung = v == "1";
+                }
+            }
+            "E" => {
+                if let Some((i, o)) = cur.take() {
+                    if i < outcomes.len() {
+                        outcomes[i] = Some(o);
+                    }
+                }
+            }
+            _ => {}
+        }
+    }
+    cur.map(|(i, _)| i)
+}
+
+static CHILD_SEQ: std::sync::atomic::AtomicUsize = std::sync::atomic::AtomicUsize::new(0);
+
+/// Parent side: run all cases in child processes; a crash or hang ends one child, is recorded on the case that was
+/// running, and a fresh child continues with the next case.
+pub fn run_isolated(e: &dyn Engine, cases: &[Vec<String>], per_case_timeout_s: u64) -> Vec<Outcome> {
+    let n = cases.len();
+    let mut outcomes: Vec<Option<Outcome>> = vec![None; n];
+    let dir = std::env::temp_dir().join(format!("nexo_harness_{}", std::process::id()));
+    let _ = std::fs::create_dir_all(&dir);
+    let seq = CHILD_SEQ.fetch_add(1, std::sync::atomic::Ordering::SeqCst);
+    let cases_file = dir.join(format!("cases_{seq}.txt"));
+    let text: Vec<String> = cases.iter().map(|c| c.join("\n")).collect();
+    std::fs::write(&cases_file, text.join("\n%%\n")).expect("write cases");
+    let exe = std::env::current_exe().expect("current exe");
+    let mut next = 0usize;
+    let mut crashes = 0usize;
+    while next < n {
+        let out_file = dir.join(format!("out_{seq}_{next}.txt"));
+        let _ = std::fs::remove_file(&out_file);
+        let mut child = match Command::new(&exe)
+            .arg(e.name())
+            .arg("--child")
+            .arg(&cases_file)
+            .arg(next.to_string())
+            .arg(&out_file)
+            .stdin(Stdio::null())
+            .stdout(Stdio::null())
+            .stderr(Stdio::null())
+            .spawn()
+        {
+            Ok(c) => c,
+            Err(_) => break,
+        };
+        let mut last_len = 0u64;
+        let mut last_progress = Instant::now();
+        let status = loop {
+            match child.try_wait() {
+                Ok(Some(st)) => break Some(st),
+                Ok(None) => {}
+                Err(_) => break None,
+            }
+            let len = std::fs::metadata(&out_file).map(|m| m.len()).unwrap_or(0);
+            if len != last_len {
+                last_len = len;
+                last_progress = Instant::now();
+            } else if last_progress.elapsed().as_secs() >= per_case_timeout_s {
+                let _ = child.kill();
+                let _ = child.wait();
+                break None;
+            }
+            std::thread::sleep(std::time::Duration::from_millis(5));
+        };
+        let text = std::fs::read_to_string(&out_file).unwrap_or_default();
+        let unfinished = parse_child_out(&text, &mut outcomes);
+        let _ = std::fs::remove_file(&out_file);
+        let ok = status.map(|s| s.success()).unwrap_or(false);
+        match unfinished {
+            Some(i) if !ok => {
+                crashes += 1;
+                let what = match status {
+                    None => format!("the implementation did not return within {per_case_timeout_s} s (hang)"),
+                    Some(st) => {
+                        #[cfg(unix)]
+                        {
+                            use std::os::unix::process::ExitStatusExt;
+                            format!("the process died (signal {:?}, code {:?}): memory error or abort", st.signal(), st.code())
+                        }
+                        #[cfg(not(unix))]
+                        {
+                            format!("the process died ({st:?})")
+                        }
+                    }
+                };
+                let mut o = Outcome::default();
+                o.resp = cases[i].iter().map(|_| "CRASH".to_string()).collect();
+                o.hung = true;
+                for p in e.crash_blame() {
+                    o.monitor.push((p.to_string(), what.clone()));
+                }
+                if i < n {
+                    outcomes[i] = Some(o);
+                }
+                next = i + 1;
+                if crashes >= 6 {
+                    break;
+                }
+            }
+            _ => {
+                if ok {
+                    next = n;
+                } else {
+                    // died between cases or could not start: give up on the rest
+                    break;
+                }
+            }
+        }
+    }
+    let _ = std::fs::remove_file(&cases_file);
+    let _ = std::fs::remove_dir(&dir);
+    outcomes
+        .into_iter()
+        .enumerate()
+        .map(|(i, o)| {
+            o.unwrap_or_else(|| {
+                let mut x = Outcome::default();
+                x.resp = cases[i].iter().map(|_| "not-run".to_string()).collect();
+                x.hung = true;
+                x
+            })
+        })
+        .collect()
+}
+
+/// Run one case, in a child process when the engine asks for isolation.
+pub fn exec_impl(e: &dyn Engine, lines: &[String]) -> Outcome {
+    if e.isolated() {
+        run_isolated(e, &[lines.to_vec()], 10).pop().unwrap()
+    } else {
+        e.run_impl(lines)
+    }
+}
+
+/// For a case on which the implementation crashed/hung: the shortest prefix that still does (binary search).
+pub fn shrink_crash(e: &dyn Engine, lines: &[String]) -> Vec<String> {
+    let crashes = |k: usize| -> bool { exec_impl(e, &lines[..k]).hung };
+    let (mut lo, mut hi) = (1usize, lines.len());
+    if !crashes(hi) {
+        return lines.to_vec();
+    }
+    while lo < hi {
+        let mid = (lo + hi) / 2;
+        if crashes(mid) {
+            hi = mid;
+        } else {
+            lo = mid + 1;
+        }
+    }
+    lines[..hi].to_vec()
 }
 
 pub struct Opts {
@@ -285,8 +542,24 @@ pub fn run(e: &dyn Engine, o: &Opts) -> Report {
     let mut outcomes: Vec<Outcome> = Vec::with_capacity(all.len());
     let mut seen: HashSet<u64> = HashSet::new();
     let mut batch: Vec<String> = Vec::new();
+    let pre: Option<Vec<Outcome>> = if e.isolated() {
+        let cs: Vec<Vec<String>> = all.iter().map(|(_, c)| c.lines.clone()).collect();
+        Some(run_isolated(e, &cs, 20))
+    } else {
+        None
+    };
+    let mut pre_it = pre.map(|v| v.into_iter());
     for (origin, c) in &all {
-        let out = e.run_impl(&c.lines);
+        let mut out = match &mut pre_it {
+            Some(it) => it.next().unwrap_or_default(),
+            None => e.run_impl(&c.lines),
+        };
+        let mut shown_lines = c.lines.clone();
+        if out.hung && e.isolated() && !out.monitor.is_empty() && report.monitor_hits.len() < 3 {
+            // shortest crashing prefix as the replay
+            shown_lines = shrink_crash(e, &c.lines);
+            out.resp.truncate(shown_lines.len());
+        }
         for t in &out.tags {
             *report.histogram.entry(t.clone()).or_insert(0) += 1;
         }
@@ -297,7 +570,7 @@ pub fn run(e: &dyn Engine, o: &Opts) -> Report {
             if report.monitor_hits.len() < 20 {
                 report.monitor_hits.push(MonitorHit {
                     origin: origin.clone(),
-                    lines: c.lines.clone(),
+                    lines: shown_lines.clone(),
                     impl_resp: out.resp.clone(),
                     property: p.clone(),
                     what: w.clone(),
@@ -355,7 +628,7 @@ pub fn run(e: &dyn Engine, o: &Opts) -> Report {
                         continue;
                     }
                     let min = minimise(e, &o.driver, &c.lines, 400);
-                    let imp = e.run_impl(&min);
+                    let imp = exec_impl(e, &min);
                     let mm = run_driver(&o.driver, e.name(), &model_lines(&min, &imp)).unwrap_or_default();
                     let fd = first_diff(e, &min, &imp.resp, &mm).unwrap_or(0);
                     let blamed = e
